@@ -159,6 +159,8 @@ fn dechunk(b: &[u8]) -> Vec<u8> {
 // minimal WebSocket client (text frames only)
 struct Ws {
     st: BufReader<TcpStream>,
+    buf: Vec<u8>,
+    msg: Vec<u8>,
 }
 
 impl Ws {
@@ -181,7 +183,7 @@ impl Ws {
                 break;
             }
         }
-        Some(Ws { st: rd })
+        Some(Ws { st: rd, buf: Vec::new(), msg: Vec::new() })
     }
 
     async fn send_text(&mut self, text: &str) -> bool {
@@ -202,49 +204,77 @@ impl Ws {
         self.st.get_mut().write_all(&f).await.is_ok()
     }
 
-    /// Next text message, None on close / error / timeout.
+    /// Next text message, None on close / error / timeout.  Cancellation-safe: bytes are
+    /// collected in `self.buf` with `read` and frames are cut from the buffer.
     async fn recv_text(&mut self, wait: Duration) -> Option<String> {
-        let fut = async {
-            let mut msg: Vec<u8> = Vec::new();
-            loop {
-                let mut h = [0u8; 2];
-                self.st.read_exact(&mut h).await.ok()?;
-                let fin = h[0] & 0x80 != 0;
-                let op = h[0] & 0x0f;
-                let mut len = (h[1] & 0x7f) as u64;
-                if len == 126 {
-                    let mut b = [0u8; 2];
-                    self.st.read_exact(&mut b).await.ok()?;
-                    len = u16::from_be_bytes(b) as u64;
-                } else if len == 127 {
-                    let mut b = [0u8; 8];
-                    self.st.read_exact(&mut b).await.ok()?;
-                    len = u64::from_be_bytes(b);
-                }
-                let mut mask = [0u8; 4];
-                if h[1] & 0x80 != 0 {
-                    self.st.read_exact(&mut mask).await.ok()?;
-                }
-                let mut p = vec![0u8; len as usize];
-                self.st.read_exact(&mut p).await.ok()?;
-                if h[1] & 0x80 != 0 {
-                    for (i, b) in p.iter_mut().enumerate() {
-                        *b ^= mask[i % 4];
-                    }
-                }
+        let deadline = tokio::time::Instant::now() + wait;
+        loop {
+            while let Some((fin, op, payload)) = self.cut_frame() {
                 match op {
                     0x1 | 0x0 | 0x2 => {
-                        msg.extend_from_slice(&p);
+                        self.msg.extend_from_slice(&payload);
                         if fin {
-                            return Some(String::from_utf8_lossy(&msg).to_string());
+                            let m = String::from_utf8_lossy(&self.msg).to_string();
+                            self.msg.clear();
+                            return Some(m);
                         }
                     }
                     0x8 => return None,
                     _ => {} // ping / pong
                 }
             }
-        };
-        tokio::time::timeout(wait, fut).await.ok().flatten()
+            let mut chunk = [0u8; 16384];
+            match tokio::time::timeout_at(deadline, self.st.read(&mut chunk)).await {
+                Ok(Ok(n)) if n > 0 => self.buf.extend_from_slice(&chunk[..n]),
+                _ => return None,
+            }
+        }
+    }
+
+    fn cut_frame(&mut self) -> Option<(bool, u8, Vec<u8>)> {
+        let b = &self.buf;
+        if b.len() < 2 {
+            return None;
+        }
+        let fin = b[0] & 0x80 != 0;
+        let op = b[0] & 0x0f;
+        let masked = b[1] & 0x80 != 0;
+        let mut len = (b[1] & 0x7f) as usize;
+        let mut off = 2;
+        if len == 126 {
+            if b.len() < 4 {
+                return None;
+            }
+            len = u16::from_be_bytes([b[2], b[3]]) as usize;
+            off = 4;
+        } else if len == 127 {
+            if b.len() < 10 {
+                return None;
+            }
+            let mut x = [0u8; 8];
+            x.copy_from_slice(&b[2..10]);
+            len = u64::from_be_bytes(x) as usize;
+            off = 10;
+        }
+        let mut mask = [0u8; 4];
+        if masked {
+            if b.len() < off + 4 {
+                return None;
+            }
+            mask.copy_from_slice(&b[off..off + 4]);
+            off += 4;
+        }
+        if b.len() < off + len {
+            return None;
+        }
+        let mut p = b[off..off + len].to_vec();
+        if masked {
+            for (i, x) in p.iter_mut().enumerate() {
+                *x ^= mask[i % 4];
+            }
+        }
+        self.buf.drain(..off + len);
+        Some((fin, op, p))
     }
 }
 
@@ -397,7 +427,7 @@ impl Life {
         let t = String::from_utf8_lossy(body);
         let mut v = Vec::new();
         for (ty, pats) in &self.seeds {
-            if pats.iter().any(|p| t.contains(p.as_str())) {
+            if pats.iter().any(|p| occurs(&t, p)) {
                 v.push(ty.clone());
             }
         }
@@ -410,6 +440,9 @@ impl Life {
         let key = s(r, "key");
         let sign_text = r.get("sign_text").and_then(|x| x.as_str()).unwrap_or(cmd);
         let sig = tweak_sig(sign(key, sign_text), s(r, "tweak"));
+        if s(r, "tweak") == "nosig" {
+            return cmd.to_string();
+        }
         match s(r, "form") {
             "inline" => format!("{user}:{sig}:{cmd}"),
             "conn" | "authconn" => format!("{sig}:{cmd}"),
@@ -436,6 +469,16 @@ impl Life {
     }
 
     async fn request(&mut self, r: &Value) -> Raw {
+        // {{tok:NAME}} in the command text stands for a token minted earlier (credential-like payloads)
+        let mut r2 = r.clone();
+        if s(r, "cmd").contains("{{tok:") {
+            let mut text = s(r, "cmd").to_string();
+            for (name, tok) in &self.tokens {
+                text = text.replace(&format!("{{{{tok:{name}}}}}"), tok);
+            }
+            r2["cmd"] = json!(text);
+        }
+        let r = &r2;
         let fe = s(r, "fe").to_string();
         let form = s(r, "form").to_string();
         match fe.as_str() {
@@ -543,6 +586,7 @@ impl Life {
         let line = self.build_line(r);
         let form = s(r, "form").to_string();
         let grace = self.ws_grace;
+        let fresh = r.get("conn").and_then(|c| c.as_str()).is_none();
         let mut owned: Option<Ws> = None;
         let ws: &mut Ws = if let Some(name) = r.get("conn").and_then(|c| c.as_str()) {
             match self.conns.get_mut(name) {
@@ -559,12 +603,21 @@ impl Life {
             }
         };
         let mut raw = Raw::default();
+        if !fresh {
+            // anything still queued belongs to an earlier request
+            while ws.recv_text(Duration::from_millis(2)).await.is_some() {
+                raw.late = true;
+            }
+        }
         if form == "authconn" {
             let au = r.get("auth_user").and_then(|x| x.as_str()).unwrap_or(s(r, "user"));
             let ak = r.get("auth_key").and_then(|x| x.as_str()).unwrap_or(s(r, "key"));
             ws.send_text(&format!("AUTH {au}:{}", sign(ak, au))).await;
             // messages are handled concurrently by the server: wait for the AUTH answer first
-            match ws.recv_text(Duration::from_secs(2)).await {
+            // (a failed AUTH is not answered at all on this front end: the caller passes a short wait
+            // when the AUTH is meant to fail)
+            let wait = Duration::from_millis(r.get("auth_wait_ms").and_then(|x| x.as_u64()).unwrap_or(5000));
+            match ws.recv_text(wait).await {
                 Some(a) => raw.auth_line = Some(a.trim().to_string()),
                 None => raw.auth_line = Some(String::new()),
             }
@@ -603,6 +656,27 @@ impl Life {
         }
         raw
     }
+}
+
+/// A seed value occurs in an answer: a string anywhere, a number only as a whole number
+/// (event ids and timestamps are long digit strings that may contain it by chance).
+fn occurs(text: &str, pat: &str) -> bool {
+    if !pat.bytes().all(|b| b.is_ascii_digit()) {
+        return text.contains(pat);
+    }
+    let tb = text.as_bytes();
+    let mut from = 0;
+    while let Some(p) = text[from..].find(pat) {
+        let a = from + p;
+        let b = a + pat.len();
+        let before = a > 0 && (tb[a - 1].is_ascii_digit() || tb[a - 1] == b'.');
+        let after = b < tb.len() && (tb[b].is_ascii_digit() || tb[b] == b'.');
+        if !before && !after {
+            return true;
+        }
+        from = a + 1;
+    }
+    false
 }
 
 fn classify(fe: &str, raw: &Raw) -> (&'static str, Option<u16>, String) {
@@ -737,12 +811,32 @@ async fn run(script: Value) -> i32 {
         seeds,
         ws_grace: Duration::from_millis(script.get("ws_grace_ms").and_then(|x| x.as_u64()).unwrap_or(300)),
     };
-    emit(&mut out, json!({"i": -1, "op": "opened", "users": life.users_snapshot().await}));
+    // tokens minted in an earlier process on the same directories (they are dead after a restart, but
+    // the client still holds them)
+    let tokens_file = script.get("tokens_file").and_then(|x| x.as_str()).map(PathBuf::from);
+    if let Some(tf) = &tokens_file {
+        if let Ok(txt) = std::fs::read_to_string(tf) {
+            if let Ok(Value::Object(m)) = serde_json::from_str::<Value>(&txt) {
+                for (k, v) in m {
+                    if let Some(t) = v.as_str() {
+                        life.tokens.insert(k, t.to_string());
+                    }
+                }
+            }
+        }
+    }
+    let first_i = script.get("first_i").and_then(|x| x.as_i64()).unwrap_or(0);
+    emit(&mut out, json!({"i": first_i - 1, "op": "opened", "users": life.users_snapshot().await}));
 
     let steps = script["steps"].as_array().cloned().unwrap_or_default();
     for (i, st) in steps.iter().enumerate() {
+        let i = i as i64 + first_i;
+        if let Some(tf) = &tokens_file {
+            let _ = std::fs::write(tf, serde_json::to_string(&life.tokens).unwrap());
+        }
         let op = s(st, "op");
         let tag = st.get("tag").cloned().unwrap_or(Value::Null);
+        let t_step = Instant::now();
         match op {
             "admin" => {
                 let raw = life.admin_wire(s(st, "cmd")).await;
@@ -829,11 +923,14 @@ async fn run(script: Value) -> i32 {
                 emit(&mut out, json!({"i": i, "op": "req", "tag": tag, "id": st.get("id"), "outcome": raw.outcome, "class": cls,
                     "status": status, "first": first, "seen": seen, "effect_before": before, "effect": after, "pre_ok": pre_ok,
                     "undo_ok": undo_ok, "auth_line": raw.auth_line.map(|a| if a.starts_with("OK TOKEN") { "OK TOKEN <token>".to_string() } else { a }),
-                    "late": raw.late, "bytes": raw.body.len(), "head": head}));
+                    "late": raw.late, "bytes": raw.body.len(), "head": head, "ms": t_step.elapsed().as_millis() as u64}));
             }
             other => emit(&mut out, json!({"i": i, "op": other, "error": "unknown op"})),
         }
     }
-    emit(&mut out, json!({"i": steps.len(), "op": "done"}));
+    if let Some(tf) = &tokens_file {
+        let _ = std::fs::write(tf, serde_json::to_string(&life.tokens).unwrap());
+    }
+    emit(&mut out, json!({"i": steps.len() as i64 + first_i, "op": "done"}));
     0
 }
